@@ -407,6 +407,28 @@ pub fn ext_time(secs: u32, frac: Option<u32>) -> Vec<u8> {
     }
     v
 }
+/// EXT_TIME in full (RFC 5651 5.2.2): SCT-High, then optionally SCT-Low, ERT, SLC, in that order
+pub fn ext_time_full(secs: u32, frac: Option<u32>, ert: Option<u32>, slc: Option<u32>) -> Vec<u8> {
+    let mut usef: u16 = 0x8000;
+    let mut words: Vec<u32> = vec![secs];
+    if let Some(f) = frac {
+        usef |= 0x4000;
+        words.push(f);
+    }
+    if let Some(e) = ert {
+        usef |= 0x2000;
+        words.push(e);
+    }
+    if let Some(c) = slc {
+        usef |= 0x1000;
+        words.push(c);
+    }
+    let mut v = vec![EXT_TIME, 1 + words.len() as u8, (usef >> 8) as u8, usef as u8];
+    for w in words {
+        v.extend_from_slice(&w.to_be_bytes());
+    }
+    v
+}
 /// unknown variable-length extension of `hel` words (hel >= 1)
 pub fn ext_unknown_var(het: u8, hel: u8, fill: u8) -> Vec<u8> {
     assert!(het < 128 && hel >= 1);
